@@ -248,8 +248,15 @@ func (fx *Fx) hardwired(st *State, fn *types.Func, call *ast.CallExpr, recv *Val
 			return []Val{{T: fmt.Sprintf("(< %s %s)", recv.T, argv(0).T), S: "Bool", GT: boolT}}, true
 		case "Time.Equal":
 			return []Val{{T: fmt.Sprintf("(= %s %s)", recv.T, argv(0).T), S: "Bool", GT: boolT}}, true
-		case "Time.UnixNano", "Duration.Nanoseconds":
+		case "Duration.Nanoseconds":
 			return intV(recv.T, rt), true
+		case "Time.UnixNano":
+			// "The result is undefined if the Unix time in nanoseconds cannot be represented by an int64" (a date before
+			// 1678 or after 2262): equal to the instant inside that range, some int64 (a function of the instant) outside
+			c.declareFun("time_unixnano", []string{"Int"}, "Int")
+			r := fmt.Sprintf("(time_unixnano %s)", recv.T)
+			st.assume(fmt.Sprintf("(and (<= (- 9223372036854775808) %s) (<= %s 9223372036854775807) (=> (and (<= (- 9223372036854775808) %s) (<= %s 9223372036854775807)) (= %s %s)))", r, r, recv.T, recv.T, r, recv.T))
+			return intV(r, rt), true
 		case "Time.IsZero":
 			c.declareConst("time_zero", "Int")
 			return []Val{{T: fmt.Sprintf("(= %s time_zero)", recv.T), S: "Bool", GT: boolT}}, true
